@@ -5,7 +5,7 @@
    environment of Bot.v (srv_emit / srv_hears / env_allows).  Proofs: BotFacts.v. *)
 From Coq Require Import List Bool Arith NArith ZArith.
 Require Import Bot BotFacts.
-Require PtnMove Playtak PtnMoveFacts BotLine BotLineFacts BotLineFacts2.
+Require PtnMove Playtak PtnMoveFacts BotLine BotLineFacts BotLineFacts2 Move BotInst BotLineInst.
 Import ListNotations.
 
 (* The full statement of DESIGN 5.7, for the repaired loop (fixed = true), any game, any colour
@@ -129,6 +129,24 @@ Theorem C07_classify_time : forall gs w b t : list N,
      BotLine.atoi_value s = BotLineFacts2.dec_val s 0).
 Proof. exact (fun gs w b t Hg Hw Hb Ht => conj (BotLineFacts2.classify_time gs w b t Hg Hw Hb Ht) BotLineFacts2.atoi_value_decimal). Qed.
 Print Assumptions C07_classify_time.
+
+(* The chat callbacks: HandleTell(who, msg) is made exactly for the members of the Tell language, HandleChat(room, who, msg)
+   exactly for the members of the Shout (room = "") and ShoutRoom languages (BotLineFacts.tell_line / shout_line / room_line,
+   see Properties/C13.v), with exactly those arguments - for any game string other than the three chat words. *)
+Theorem C07_classify_chat : forall gs l : list N,
+  gs <> BotLineFacts2.w_tell -> gs <> BotLineFacts2.w_shout -> gs <> BotLineFacts2.w_shoutroom ->   (* the words "Tell", "Shout", "ShoutRoom" *)
+  (forall w m, BotLine.l_chat (BotLine.classify gs l) = BotLine.ChatTell w m <-> BotLineFacts.tell_line l w m) /\
+  (forall r w m, BotLine.l_chat (BotLine.classify gs l) = BotLine.ChatRoom r w m <->
+                 (r = [] /\ BotLineFacts.shout_line l w m) \/ BotLineFacts.room_line l r w m).
+Proof. exact BotLineInst.classify_chat. Qed.
+Print Assumptions C07_classify_chat.
+
+(* The dispatch BotInst.classify (the hand translation the C07 driver used before the line layer was modelled; the driver
+   still compares the two on every line) is the event component of BotLine.classify, for every byte list. *)
+Theorem C07_inst_classify_eq : forall gs l : list N,
+  BotInst.classify gs l = BotLineInst.conv_line (BotLine.l_ev (BotLine.classify gs l)).
+Proof. exact BotLineInst.inst_classify_eq. Qed.
+Print Assumptions C07_inst_classify_eq.
 
 (* C07_bot_tracks_server over RAW lines: revs is what the loop really receives (raw byte lines, closing, thinker returns,
    timer expiries); evs the abstract events a conforming server means by them (conforms = server_says on the lines).
